@@ -228,6 +228,19 @@ def case_replay(cs):
     v2 = t2.strategy.values
     if not np.allclose(v1.values, v2.values, rtol=1e-9, atol=1e-6):
         mech = "c18_replay_values"
+        # same-date round trips that net to zero cannot appear in a list built from position differences
+        net, gross = {}, {}
+        for e in run.events:
+            if e["k"] == "trade":
+                kk = (e["date"], e["sec"].name)
+                net[kk] = net.get(kk, 0.0) + (e["pos1"] - e["pos0"])
+                gross[kk] = gross.get(kk, 0.0) + abs(e["pos1"] - e["pos0"])
+        offs = sorted(kk[0] for kk in net if abs(net[kk]) < 1e-12 and gross[kk] > 0)
+        bad = np.abs(v1.values - v2.values) > 1e-6 + 1e-9 * np.abs(v1.values)
+        first_bad = v1.index[int(np.argmax(bad))]
+        if "bidoffer" in spec["extras"] and offs and first_bad == offs[0]:
+            mech = "k12_same_date_round_trip_missing_from_transactions"
+            w = dict(w, first_round_trip=str(offs[0]), round_trips=len(offs))
         return common.result(common.VIOL, sig=sig, nt=True, cnt=cnt, mech=mech, witness=dict(w, max_abs_diff=float(np.abs(v1.values - v2.values).max())), sample=sample)
     return common.result(common.HELD, sig=sig, nt=True, cnt=cnt, sample=sample)
 
